@@ -792,8 +792,8 @@ func RunC03(r *mon.Run) {
 	runConcC03(r, g)
 	all := append(append([]RuleSpec(nil), dyn...), real...)
 	nSeq := 0
-	nMulti := r.Pick(70, 6000)
-	nMut := r.Pick(4, 200)
+	nMulti := r.Pick(50, 6000)
+	nMut := r.Pick(3, 200)
 	for ri, rule := range all {
 		p, err := newPlan(rule)
 		if err != nil {
